@@ -155,6 +155,16 @@ Theorem C09_keep_write_iff : forall o n,
 Proof. exact keep_write_iff. Qed.
 Print Assumptions C09_keep_write_iff.
 
+(* and when it refuses, the error is the set check or the union count, never anything else (no
+   malformed buffer, no ill-formed object): write_refusal e := e = KStd ESetDup \/ exists c, e = KStd (EUnionCount c) *)
+Theorem C09_keep_rewrite_errors : forall o n,
+  extendsb o n = true -> wf_env o = true -> wf_env n = true -> opt_defaults_ok o n = true ->
+  forall v t key w x e,
+    wt_val n key t v = true -> keepable n t v = true -> closed_ty o t = true ->
+    to_w n t v = Ok w -> from_wk o t w = KOk x -> to_wk o t x = KErr e -> write_refusal e.
+Proof. exact keep_rewrite_errors_w. Qed.
+Print Assumptions C09_keep_rewrite_errors.
+
 (* the round trip with decidable hypotheses only: keep_accepts o n so sn v = the object the old code
    holds after reading what the new code wrote for v is writable.  (C09_keep_roundtrip_refuted is the
    case keep_accepts = false: C09_keep_accepts_examples.) *)
